@@ -21,6 +21,8 @@ Definition res_eq (obs model : list (pname * Z)) : bool :=
 (* observed snapshot of a manager: free, used, reserved *)
 Definition snap := (list Z * list (Z * pname) * list (pname * Z))%type.
 
+Definition snap_free (o : snap) : list Z := let '(f, _, _) := o in f.
+
 Definition snap_code (o : snap) (s : pm) : Z :=
   let '(f, u, r) := o in
   if negb (zset_eq f (pm_free s)) then 4
@@ -45,7 +47,8 @@ Definition mstep := (mop * snap)%type.
 
 (* which branch of Acquire the model took (for the coverage counters):
    1 reserved path, 2 random ok, 3 random none available, 4 specified ok, 5 unavailable, 6 already used,
-   7 not allowed, 8 random path picked port 0, 9 reserved path took a port that was in use, 10 release of
+   7 not allowed, 8 random path picked port 0 (impossible since NewManager drops it), 9 the remembered port is
+   bindable but owned by somebody else: the reserved path must fall through (regression of F-C09d), 10 release of
    a used port, 11 release of a port that is not used *)
 Definition branch_of (s : pm) (o : mop) : Z :=
   match o with
@@ -53,7 +56,8 @@ Definition branch_of (s : pm) (o : mop) : Z :=
       if port =? 0 then
         match rget n (pm_res s) with
         | Some rp =>
-            if probe_of busy rp then (match uget rp (pm_used s) with Some _ => 9 | None => 1 end)
+            if zmem rp (pm_free s) && probe_of busy rp then 1
+            else if probe_of busy rp && (match uget rp (pm_used s) with Some _ => true | None => false end) then 9
             else match ch with Some 0 => 8 | Some _ => 2 | None => 3 end
         | None => match ch with Some 0 => 8 | Some _ => 2 | None => 3 end
         end
@@ -122,7 +126,8 @@ Fixpoint mon_steps (allowed : list Z) (prev : snap) (l : list mstep) : Z :=
                  if 0 <=? res then
                    (* granted: allowed, bindable, recorded for this name, and not taken from an owner
                       unless the OS itself said the port was bindable (the probe is the authority) *)
-                   if negb (zmem res allowed) then 22
+                   if zmem res (map fst pu) then 32   (* granted a port that had an owner *)
+                   else if negb (zmem res allowed) then 22
                    else if negb (probe_of busy res) then 23
                    else if negb (match uget res u with Some m => String.eqb m n | None => false end) then 24
                    else if negb ((port =? 0) || (res =? port)) then 25
@@ -268,7 +273,7 @@ Fixpoint xsteps_br (r : rcst) (ids : list Z) (l : list xstep) : list Z :=
 (* the property on the observed trace itself: the accounting equals what is bound, what is bound is
    allowed, a refusal changes nothing, a reported port is a bound port *)
 Definition snap_used_ports (o : snap) : list Z := let '(_, u, _) := o in map fst u.
-Definition snap_free (o : snap) : list Z := let '(f, _, _) := o in f.
+Definition snap_res (o : snap) : list (pname * Z) := let '(_, _, r) := o in r.
 
 Fixpoint xmon (allowed : list Z) (prev : xobs) (l : list xstep) : Z :=
   match l with
@@ -291,6 +296,10 @@ Fixpoint xmon (allowed : list Z) (prev : xobs) (l : list xstep) : Z :=
                  else if negb (zset_eq (snap_free (xo_tcp prev)) (snap_free (xo_tcp ob)) &&
                                zset_eq (snap_free (xo_udp prev)) (snap_free (xo_udp ob)) &&
                                zset_eq (xo_btcp prev) (xo_btcp ob) && zset_eq (xo_budp prev) (xo_budp ob)) then 47
+                 (* ... nor anybody's remembered port, unless a port was acquired and the listen failed (-5) *)
+                 else if negb (xo_res ob =? -5) &&
+                         negb (res_eq (snap_res (xo_tcp prev)) (snap_res (xo_tcp ob)) &&
+                               res_eq (snap_res (xo_udp prev)) (snap_res (xo_udp ob))) then 48
                  else 0
              | _ => 0
              end in
@@ -396,7 +405,9 @@ Definition check_case (c : case) : Z :=
   | CPorts ranges init steps =>
       let s0 := pm_new ranges in
       let c0 := snap_code init s0 in
-      if negb (c0 =? 0) then c0
+      (* only bindable ports may ever be free (regression of F-C09e) *)
+      if negb (forallb (fun p => (1 <=? p) && (p <=? 65535)) (snap_free init)) then 33
+      else if negb (c0 =? 0) then c0
       else let m := mon_steps (pm_free s0) init steps in
            if negb (m =? 0) then m else msteps_code 1 s0 steps
   | CPxy cfg steps => xsteps_code cfg steps
